@@ -41,3 +41,7 @@ Proof.
     replace (Z.to_nat (-9 + len l + 1)) with (length l - 8)%nat by (unfold len in *; lia).
     apply firstn_all2. rewrite skipn_length. unfold len in *. lia.
 Qed.
+
+(* struct.unpack("<H", x)[0] / (">H") for a 2-byte x (total: missing bytes read as 0) *)
+Definition unpack_le16 (l : list Z) : Z := pyidx l 0 + 256 * pyidx l 1.
+Definition unpack_be16 (l : list Z) : Z := 256 * pyidx l 0 + pyidx l 1.
